@@ -26,7 +26,7 @@ def assumptions():
             "the model's own field reader defines 'value' (first line trimmed, comment lines dropped)"]
 
 
-VALUES = ["x", "", " pad ", "x\n y", "x\n y\n\tz"]
+VALUES = ["x", "", " pad ", "x\n y", "x\n y\n\tz", "\n y", "\n y\n z"]
 
 
 def layouts(name, v, w):
@@ -116,11 +116,11 @@ def ops_small(doc):
             if f.name.lower() in seen:
                 continue
             seen.append(f.name.lower())
-            for val in ("x", "x\n y"):
+            for val in ("x", "x\n y", "\n y"):
                 ops.append(("set", pi, f.name, val))
             ops.append(("del", pi, f.name))
         if "n" not in seen:
-            for val in ("x", "x\n y"):
+            for val in ("x", "x\n y", "\n y"):
                 ops.append(("set", pi, "N", val))
     return ops
 
